@@ -11,7 +11,7 @@ import (
 func init() {
 	Registry["C06"] = C06
 	Metas["C06"] = Meta{
-		Explanation: "Decides, on every abstract path of every cache method (role evaluation), the per-call clauses of C06: (E1) every call of the evicted callback passes the key given to - and the value observed by - a map operation of the same path that actually removed an entry (delete effect on a present entry), never a value captured from an earlier snapshot or the caller's argument; (E2) it is therefore control-dependent on that removal; (E3) in the removing methods (GetAndDelete, Delete, DeleteExpired) every path that removes an entry either found the callback nil or fires it exactly once for that entry, and never more than once per removal; (E4) no other method fires the callback (lazy deletion on read and Compute-deletes are silent); (E5) the callback fired is the one loaded from the settings during this call, and callbacks run outside closures that execute under the bucket lock (C13.L5); (E6) the janitor removes entries only through the public DeleteExpired (or a pure delegate of it), so E1-E5 cover its removals too (restated from C15.J1/J5). NOT decided: exactly-once over concurrent histories (follows from E1-E3 plus the atomicity of the removing operation, C03/C04).",
+		Explanation: "Decides, on every abstract path of every cache method (role evaluation), the per-call clauses of C06: (E1) every call of the evicted callback passes the key given to - and the value observed by - a map operation of the same path that actually removed an entry (delete effect on a present entry), never a value captured from an earlier snapshot or the caller's argument; (E2) it is therefore control-dependent on that removal; (E3) in the removing methods (GetAndDelete, Delete, DeleteExpired) every path that removes an entry either found the callback nil or fires it exactly once for that entry, and never more than once per removal; (E4) no other method fires the callback (lazy deletion on read and Compute-deletes are silent); (E5) the callback fired is the one loaded from the settings during this call, and callbacks run outside closures that execute under the bucket lock (C13.L5); (E6) the janitor removes entries only through the public DeleteExpired (or a pure delegate of it), so E1-E5 cover its removals too (restated from C15.J1/J5); (E7) a removal that fired the callback is final (C03/C04 P3-P6, C11.L1); (E8) the cache object's plain fields are written by the constructor only, so the pairs a removing call has collected for delivery cannot be overwritten by a pass started from inside the callback or by the janitor's pass (restated from C14.A3 for the cache layer). NOT decided: exactly-once over concurrent histories (follows from E1-E3 plus the atomicity of the removing operation, C03/C04).",
 		Rule:        "one obligation per (rule, method); non-trivial = decided from the callback / map-operation events of the evaluated paths",
 		Assumptions: []string{"the map-operation contract (a delete effect on loaded=true removes exactly the observed item)"},
 	}
@@ -147,6 +147,23 @@ func C06(r *Run) *core.Report {
 		n7++
 	}
 	rep.MinCount("C06.E7", "premise obligations (removals are final)", n7, 10)
+	// E8: what a removing call has collected for delivery stays its own: the cache object's plain fields are written
+	// by the constructor only, so a pass started from inside the callback, or the janitor's pass running beside a manual
+	// one, cannot overwrite pairs that are still waiting to be reported (restated from C14.A3 for the cache layer)
+	tmp8 := core.NewReport("C06")
+	c14Accesses(r, tmp8, apiReachable(r))
+	n8 := 0
+	for _, o := range tmp8.Obs {
+		if o.Trivial || o.Rule != "C14.A3" || !strings.HasPrefix(o.Construct, "cache.") {
+			continue
+		}
+		c := *o
+		c.Construct = "[" + o.Rule + "] " + o.Construct
+		c.Rule = "C06.E8"
+		rep.Obs = append(rep.Obs, &c)
+		n8++
+	}
+	rep.MinCount("C06.E8", "premise obligations (cache fields written by the constructor only)", n8, 2)
 	// E5 second half: borrowed from C13.L5
 	tmp := core.NewReport("C06")
 	c13L5(r, tmp)
